@@ -443,3 +443,109 @@ Definition subspace_shape (shape : list nat) (idx : list aindex) : list nat :=
   | [] => shape
   | _ => map (fun ni => length (axis_positions (fst ni) (snd ni))) (combine shape idx)
   end.
+
+(* ---- Data.equals on compressed data (cfdm/data/data.py Data.equals) ----
+     if not ignore_compression:
+         compression types differ        -> False
+         compressed arrays differ        -> False
+     uncompressed arrays differ          -> False
+     True
+   (shape, data type, fill value and units are part of the comparison of the
+   uncompressed arrays here.)  [ctype] and [carr] project the compression type
+   and the compressed array out of a compressed source; plain data have the
+   compression type ''. *)
+Section Equals.
+Context {C U T K : Type}.
+Context (decode : C -> U) (ctype : C -> T) (carr : C -> K).
+Context (u_eqb : U -> U -> bool) (t_eqb : T -> T -> bool) (k_eqb : K -> K -> bool).
+
+Definition same_compression (s t : @dstate C U) : bool :=
+  match s, t with
+  | Plain _, Plain _ => true
+  | Compressed a, Compressed b => t_eqb (ctype a) (ctype b) && k_eqb (carr a) (carr b)
+  | _, _ => false
+  end.
+
+Definition data_equals (ignore_compression : bool) (s t : @dstate C U) : bool :=
+  (if ignore_compression then true else same_compression s t) &&
+  u_eqb (view decode s) (view decode t).
+
+(* a variant that does not look at the uncompressed arrays when the
+   compression types and the compressed arrays are equal (never in cfdm; kept
+   for the witness Refuted.C06_equals_shortcut_refuted: the count / index /
+   list variables are not part of that comparison) *)
+Definition data_equals_shortcut (ignore_compression : bool) (s t : @dstate C U) : bool :=
+  match s, t with
+  | Compressed a, Compressed b =>
+      if t_eqb (ctype a) (ctype b) && k_eqb (carr a) (carr b) then true
+      else data_equals ignore_compression s t
+  | _, _ => data_equals ignore_compression s t
+  end.
+
+End Equals.
+
+(* ---- the integer type of a count / index / list variable ----
+   A value v kept in a variable of type t is read back as [wrap t v] (two's
+   complement); RaggedContiguousArray.subarrays does
+       count = np.array(self.get_count()).tolist();  c = tuple(accumulate([0] + count))
+   so the partial sums are sums of Python integers, whatever the type. *)
+Inductive ity := I8 | U8 | I16 | U16 | I32 | U32 | I64.
+
+Open Scope Z_scope.
+
+Definition ity_bits (t : ity) : Z :=
+  match t with I8 | U8 => 8 | I16 | U16 => 16 | I32 | U32 => 32 | I64 => 64 end.
+
+Definition ity_signed (t : ity) : bool :=
+  match t with I8 | I16 | I32 | I64 => true | _ => false end.
+
+Definition ity_min (t : ity) : Z := if ity_signed t then - 2 ^ (ity_bits t - 1) else 0.
+Definition ity_max (t : ity) : Z :=
+  if ity_signed t then 2 ^ (ity_bits t - 1) - 1 else 2 ^ ity_bits t - 1.
+
+Definition in_ity (t : ity) (v : Z) : bool := (ity_min t <=? v) && (v <=? ity_max t).
+
+Definition wrap (t : ity) (v : Z) : Z :=
+  let m := 2 ^ ity_bits t in
+  let r := v mod m in
+  if ity_signed t && (ity_max t <? r) then r - m else r.
+
+Close Scope Z_scope.
+
+Section Typed.
+Context {A : Type}.
+Context (miss : A).
+
+(* the code: the values read back from the variable, as Python integers *)
+Definition count_tolist (t : ity) (stored : list Z) : list nat :=
+  map (fun v => Z.to_nat (wrap t v)) stored.
+
+Definition contiguous_decode_ty (t : ity) (nrows w : nat) (stored : list Z) (data : list A) :=
+  contiguous_decode miss nrows w (count_tolist t stored) data.
+
+(* a variant in which the partial sums are accumulated in the variable's own
+   type (np.cumsum(..., dtype=count.dtype)) - never in cfdm; for the witness
+   Refuted.C06_partial_sums_in_count_type_refuted.  A slice with a negative or
+   reversed bound follows Python: negative bounds count from the end, bounds
+   are clipped, a stop at or before the start selects nothing. *)
+Fixpoint cumsum_wrap (t : ity) (acc : Z) (l : list Z) : list Z :=
+  match l with
+  | [] => []
+  | x :: r => let s := wrap t (acc + x) in s :: cumsum_wrap t s r
+  end.
+
+Definition norm_bound (n x : Z) : nat :=
+  Z.to_nat (if Z.ltb x 0 then Z.max 0 (x + n) else Z.min x n).
+
+Fixpoint slices_between (n : Z) (start : Z) (ends : list Z) : list selector :=
+  match ends with
+  | [] => []
+  | e :: r => SSlice (norm_bound n start) (norm_bound n e) :: slices_between n e r
+  end.
+
+Definition contiguous_decode_wrapped (t : ity) (nrows w : nat) (stored : list Z) (data : list A) :=
+  let counts := map (wrap t) stored in
+  assemble miss w nrows
+    (slices_between (Z.of_nat (length data)) 0%Z (cumsum_wrap t 0%Z counts)) data.
+
+End Typed.
